@@ -11,7 +11,17 @@ def _b(E, v):
     return z3.BoolVal(r) if isinstance(r, bool) else r
 
 
+EXTRA = {}
+
+
+def register(name, fn):
+    """register a specification-only function defined by a sidecar contract file"""
+    EXTRA[name] = fn
+
+
 def call(E, name, args, kwargs):
+    if name in EXTRA:
+        return EXTRA[name](E, *args)
     if name == 'implies':
         return VB(z3.Implies(_b(E, args[0]), _b(E, args[1])))
     if name == 'iff':
